@@ -253,6 +253,19 @@ def rule_stop_protocol(ctx, crate, g, rule="R-STOP-PROTOCOL"):
         ok = bool(stops) and all(s.bb in some_reg for s in stops)
         ctx.check(ok, rule, "old-ticker-stopped", sr.name, K.fn_loc(sr), "a previously installed ticker is stopped",
                   "a previously installed ticker is not stopped when it is replaced/disabled", cfg)
+        # ... unconditionally: a request for a ticker (`Some(interval)`) always ends with a *fresh* ticker in the slot, a request for
+        # none with the old one taken out - whatever is in the slot (an installed Ticker is no proof of a live thread: the thread
+        # of a finished bar has exited and left its Ticker behind)
+        ivs = [i for i in range(1, sr.arg_count + 1) if sr.locals[i]["ty"].replace(" ", "") == "std::option::Option<std::time::Duration>"]
+        if len(ivs) == 1:
+            pred_iv = lambda pl, iv=ivs[0]: pl["l"] == iv and not [e for e in pl["p"] if e != "*"]
+            store_bbs = {i for i, s in stores}
+            rets = set(sr.return_blocks())
+            R_some, av_some = K.variant_reach(sr, crate, "std::option::Option", "Some", pred_iv, want_avoid=True)
+            leak = sr.reach([0], avoid=store_bbs, avoid_edges=av_some) & rets
+            ctx.check(not leak, rule, "replace-unconditional", sr.name, K.fn_loc(sr), "asking for a steady tick always installs a fresh ticker",
+                      "a request for a steady tick can return without installing a fresh ticker (early return when the slot looks up to date): after the bar "
+                      "finished, its thread has exited but its Ticker is still in the slot - re-enabling with the same interval then starts nothing, and manual ticks stay disabled", cfg)
         # ticker is created with a reference to the bar state (downgraded inside Ticker::new)
     tn = K.find_one(ctx, crate, rule, r"progress_bar::Ticker::new")
     if tn:
